@@ -132,9 +132,9 @@ def oracleC10 (op : String) (args : List Bytes) (impl : String) : String × Stri
     match args[0]? with
     | none => ("na", "")
     | some f =>
-      if !S.canonical f then ("na", "not-canonical")
+      if !S.canonicalDistinfo f then ("na", "not-canonical")
       else
-        let groups := (S.document f).2
+        let groups := (S.distinfoDocument f).2
         let nt := if groups.length ≥ 2 && highByte f then "nt" else ""
         if impl == hexEncode f then ("ok", nt) else ("fail:canonical-file-does-not-round-trip", nt)
   | "distinfo.build" =>
@@ -192,7 +192,7 @@ def oracleC11 (op : String) (args : List Bytes) (impl : String) : String × Stri
   | "distinfo.parse" =>
     match args[0]? with
     | some f =>
-      let r := S.document f
+      let r := S.distinfoDocument f
       let exp := specDump r
       let lines := splitNl' f
       let recs := lines.map S.recognise
@@ -209,7 +209,7 @@ def oracleC12 (op : String) (args : List Bytes) (impl : String) : String × Stri
   | "distinfo.find" =>
     match args[0]?, args[1]? with
     | some f, some p =>
-      let groups := (S.document f).2
+      let groups := (S.distinfoDocument f).2
       let exp := match S.find groups p with
         | some g => "found:" ++ showGroup g
         | none => "err:notfound"
@@ -220,7 +220,7 @@ def oracleC12 (op : String) (args : List Bytes) (impl : String) : String × Stri
   | "distinfo.verify" =>
     match args with
     | [f, p, content, ex, plain, patch] =>
-      let groups := (S.document f).2
+      let groups := (S.distinfoDocument f).2
       let full := ascii "f/" ++ p
       let fileExists := ex == [49]
       if !fileExists then ("na", "file-absent") else
